@@ -1,6 +1,6 @@
 """C08 — Timers never fire early, twice, or after a successful cancel (DESIGN §7 C08)."""
 import os, json
-from vlib.core import Ctx, ddmin
+from vlib.core import Ctx, ddmin, ModelBuildError
 
 ID = "C08"
 MODULES = ["IoraModel.Props.C08"]
@@ -54,6 +54,10 @@ OBLIGATIONS = [
      "statement": "after stop() returned, for every continuation: no handler starts, state stays Stopped, never accepting (S6)"},
     {"id": "C08_S4c", "theorem": "Iora.C08.S4_stop_waits_for_handlers", "kind": "proved",
      "statement": "stop() returns only after the loop thread exited with nothing collected left to run"},
+    {"id": "C08_S5a", "theorem": "Iora.C08.S5_heap_order", "kind": "proved",
+     "statement": "the heap of every reachable state is in heap order for less(tp,id): siftUp/siftDown/heapPop preserve it, the root is a minimum"},
+    {"id": "C08_S5b", "theorem": "Iora.C08.S5_no_due_record_left", "kind": "proved",
+     "statement": "when collectDueLocked's loop leaves by break/empty heap no record with tp <= now remains (no silent loss)"},
     {"id": "C08_S6", "theorem": "Iora.C08.S6_refused", "kind": "proved", "statement": "schedule* on a non-accepting service returns 0 and stores nothing"},
 ]
 ANCHOR_FILES = ["include/iora/core/timing_wheel.hpp", "include/iora/core/timer.hpp"]
@@ -674,13 +678,23 @@ def run(ctx: Ctx):
     if ok_build:
         ctx.audit(MODULES, OBLIGATIONS)
         if not quick:
-            ctx.leanchecker(MODULES + ["IoraModel.Lemmas.TimingWheel", "IoraModel.Model.TimingWheel", "IoraModel.Lemmas.TimerService", "IoraModel.Model.TimerService"])
+            ctx.leanchecker(MODULES + ["IoraModel.Lemmas.TimingWheel", "IoraModel.Model.TimingWheel", "IoraModel.Lemmas.TimerService", "IoraModel.Lemmas.TimerHeap", "IoraModel.Model.TimerService"])
     else:
         ctx.cov["obligations"] = len(OBLIGATIONS)
-    hb = ctx.build_harness("harness/c08_wheel.cpp", sanitize=True)
-    hs = ctx.build_harness("harness/c08_svc.cpp", sanitize=True)
+    # the three harnesses are independent translation units: compile them side by side
+    from concurrent.futures import ThreadPoolExecutor
+    with ThreadPoolExecutor(3) as ex:
+        futs = [ex.submit(ctx.build_harness, src, sanitize=True) for src in ("harness/c08_wheel.cpp", "harness/c08_svc.cpp", "harness/c08_rt.cpp")]
+        hb, hs, hr = [f.result() for f in futs]
     dist = {}
-    have_model = ok_build
+    # the model drivers depend on Model/* and Gen/* only: the correspondence run goes ahead even when a theorem no longer builds,
+    # so that a broken proof obligation comes with a failing input whenever the monitors can find one
+    have_model = True
+    try:
+        ctx.model_argv("wheel")
+        ctx.model_argv("tsvc")
+    except ModelBuildError:
+        have_model = False
     if hb and have_model:
         r = rng.fork("wheel")
         cases = load_corpus("wheel") + boundary_cases() + [gen_wheel_case(r, i) for i in range(3000 * scale)]
@@ -697,7 +711,6 @@ def run(ctx: Ctx):
         judge(ctx, hs, res, monitor_svc, "service lockstep (harness/c08_svc.cpp vs Model/TimerService.lean)", dist, rng,
               stats=svc_stats, tot=tot, nontrivial=lambda st: st["starts"] > 0)
         ctx.extra["svc_totals"] = tot
-    hr = ctx.build_harness("harness/c08_rt.cpp", sanitize=True)
     if hr:
         sc = rt_scenarios(rng.fork("rt"), 1 if quick else 4)
         t_rt = __import__("time").time()
@@ -721,9 +734,24 @@ def run(ctx: Ctx):
         ctx.extra["rt_totals"] = tot
     ctx.extra["input_distribution"] = dist
     ctx.extra["repo_tree_sha"] = ctx.repo_tree_sha(ANCHOR_FILES)
-    ctx.extra["not_proved"] = []
-    ctx.assumptions += ["wheel: 64-bit tick counters and nanosecond arithmetic do not wrap; steady_clock values are whatever the op list says (no monotonicity assumed by the theorems)"]
-    return ctx.finish(level="proof", rule="a case = one op list from `reset`; distinct = distinct op lists; non-trivial = at least one timer fired")
+    ctx.extra["not_proved"] = [
+        "W6 as a theorem about threads (the order stop()/drain(): flag, join, clear is a Gen obligation; that joining the tick thread ends all callbacks is std::thread semantics)",
+        "termination of collectDueLocked's loop for positive periodic intervals (S5b is conditional on the loop leaving by break/empty heap; the lockstep driver never ran out of fuel)",
+        "real-time behaviour of timerfd/epoll/condition variables (measured by the real-time monitors, not proved)",
+        "TimingWheel::reset()/restart, TimerService::reset()/start() after stop, SteadyTimer, TimerServicePool (delegates to per-service calls), a second concurrent stop()",
+    ]
+    ctx.extra["observations"] = [
+        "F42 (not a C08 clause): schedulePeriodic(interval <= 0) makes collectDueLocked loop forever under _mutex (the re-armed record is due again at once); the model's collectLoop runs out of fuel in the same way",
+        "wheel lateness (not a C08 clause): a timer whose delay is >= one level-0 revolution is filed relative to the level's currentTick and can fire up to one lower-level revolution late; ticks that arrive 1.x ticks late lose the fraction (the wheel lags)",
+    ]
+    ctx.assumptions += [
+        "wheel: 64-bit tick counters and nanosecond arithmetic do not wrap (now + delay < 2^63 ns); steady_clock values are whatever the op list says (no monotonicity assumed by the theorems)",
+        "wheel lockstep: advance() is issued by the op list under an interposed CLOCK_MONOTONIC (the real start() runs, its tick thread is joined at once); the tick thread's own timing is exercised only in the real-time part",
+        "service lockstep: the real loop thread is single-stepped by an interposed epoll_wait; timerfd/eventfd wake-ups are replaced by the op `wake`",
+        "service model: the atomic steps are the `_mutex` sections (+ handler start/end); stop() is called by one thread at a time; the periodic cancel guard is checked atomically with the handler start",
+        "real-time part: safety monitors over measured steady-clock timestamps (call/return of schedule/cancel/stop, handler start/end); a periodic handler body may start up to 1 ms after cancel() returned (guard check precedes the body); RT6 (nothing lost) is a watchdog with 150/400 ms slack",
+    ]
+    return ctx.finish(level="proof", rule="a case = one op list from `reset` (wheel or single-stepped service) or one real-time scenario; distinct = distinct op lists / scenario seeds; non-trivial = at least one timer fired / handler started")
 
 
 def svc_stats(c, impl):
